@@ -253,4 +253,19 @@ PROPS = {
             "the one-shot parser ignores input after a complete top-level value (`1 2` parses as 1); the oracle takes the parser's verdict as the meaning of `valid Recon`",
         ],
     ),
+    "C11": dict(
+        coq_targets=["Props/C11.vo"],
+        harness=[dict(pkg="h_recon", bin="c11", cases={"quick": 400, "thorough": 5000},
+                      checkers=["corr", "oracle"], timeout=2400)],
+        allowed_axioms=[],
+        trusted_base=[
+            "strings are lists of Unicode scalar values; the header matcher is modelled for headers whose slot values are text-like or numeric tokens (everything the encoder produces, plus rate / prio); other value shapes in a header are outside the model and not generated",
+            "hook: swimos_remote feature `verif` re-exports task::envelopes::ReconEncoder",
+        ],
+        assumptions=[
+            "the theorem covers the text encoding of the eight link-level envelope kinds for every node, lane and body; correspondence ties both directions to the code, the direct oracle re-reads what the real encoder wrote",
+            "not modelled: dispatch of decoded envelopes to the addressed agent / downlinks in the remote task, fairness between the sources sharing a socket (multi reader), auth / deauth, web socket framing (partial)",
+            "the reader skips blanks in front of the body: bodies are compared up to leading blanks",
+        ],
+    ),
 }
